@@ -726,4 +726,1414 @@ theorem svcStep_ok (p : Program) (cfg : Cfg) (Mf : Marks) (ms : List Bytes) {f :
         exact markSvcFn_inv p cfg Mf hs hf h hMf
       · exact h
 
+
+
+/-- marks only grow, the cache is untouched -/
+def Ext (st st' : St) : Prop := st.marks ⊆ st'.marks ∧ st'.cache = st.cache ∧ (st.crash = true → st'.crash = true)
+
+theorem Ext.refl (st : St) : Ext st st := ⟨fun _ h => h, rfl, fun h => h⟩
+theorem Ext.trans {a b c : St} (h1 : Ext a b) (h2 : Ext b c) : Ext a c :=
+  ⟨fun _ h => h2.1 (h1.1 h), h2.2.1.trans h1.2.1, fun h => h2.2.2 (h1.2.2 h)⟩
+
+theorem traceFinish_ext (f : Nat) (svc : Service) (s : St) (b : Bool) : Ext s (traceFinish f svc (s, b)).1 := by
+  unfold traceFinish
+  simp only
+  split
+  · refine ⟨?_, rfl, fun h => h⟩
+    intro x hx
+    simp only
+    split
+    · exact insInc_sub _ _ _ (List.mem_cons_of_mem _ hx)
+    · exact List.mem_cons_of_mem _ hx
+  · exact Ext.refl _
+
+theorem traceFinish_inv (p : Program) (cfg : Cfg) (Mf : Marks) (f : Nat) (svc : Service) (s : St) (b : Bool)
+    (h : Inv p cfg Mf s) : Inv p cfg Mf (traceFinish f svc (s, b)).1 := by
+  unfold traceFinish
+  simp only
+  split
+  · simp only
+    split
+    · exact h.step _ rfl (fun _ hx => insInc_sub _ _ _ (List.mem_cons_of_mem _ hx))
+        ((h.m.cons_leaf _ rfl rfl).insInc _ _) ((h.fnj.cons_other _ (fun _ _ _ => by simp)).insInc _ _)
+    · exact h.step _ rfl (fun _ hx => List.mem_cons_of_mem _ hx)
+        (h.m.cons_leaf _ rfl rfl) (h.fnj.cons_other _ (fun _ _ _ => by simp))
+  · exact h
+
+theorem traceStep_ext (p : Program) (cfg : Cfg) (ms fathers : List Bytes) (f : Nat) (svc : Service) (st : St) (fn : Function) :
+    Ext st (traceStep p cfg ms fathers f svc st fn) := by
+  unfold traceStep
+  split
+  · exact ⟨markSvcFn_sub p f svc st fn, rfl, fun h => h⟩
+  · exact Ext.refl _
+
+theorem foldFns_ext {g : St → Function → St} (hg : ∀ st fn, Ext st (g st fn)) :
+    ∀ (fns : List Function) (st : St), Ext st (fns.foldl g st) := by
+  intro fns
+  induction fns with
+  | nil => intro st; exact Ext.refl _
+  | cons a as ih => intro st; exact (hg st a).trans (ih (g st a))
+
+theorem trace_ext (p : Program) (cfg : Cfg) (ms : List Bytes) : ∀ (j : Nat) (fathers : List Bytes) (f : Nat) (svc : Service) (st : St),
+    Ext st (trace p cfg ms j fathers f svc st).1 := by
+  intro j
+  induction j with
+  | zero => intro fathers f svc st; exact ⟨fun _ h => h, rfl, fun _ => rfl⟩
+  | succ j ih =>
+    intro fathers f svc st
+    have hfold := foldFns_ext (traceStep_ext p cfg ms fathers f svc) svc.fns st
+    unfold trace
+    simp only
+    generalize svc.fns.foldl (traceStep p cfg ms fathers f svc) st = st1 at hfold ⊢
+    split
+    · split
+      · exact hfold.trans (Ext.trans (b := { st1 with crash := true }) ⟨fun _ h => h, rfl, fun _ => rfl⟩ (traceFinish_ext f svc _ _))
+      · rename_i g b _
+        have i := ih (fathers ++ [b.name]) g b st1
+        generalize trace p cfg ms j (fathers ++ [b.name]) g b st1 = r at i ⊢
+        refine hfold.trans (i.trans ?_)
+        split
+        · exact traceFinish_ext f svc _ _
+        · exact Ext.trans (b := { r.1 with ext := (f, svc.name) :: r.1.ext }) ⟨fun _ h => h, rfl, fun h => h⟩ (traceFinish_ext f svc _ _)
+    · exact hfold.trans (traceFinish_ext f svc _ _)
+
+theorem Inv.same {p : Program} {cfg : Cfg} {Mf : Marks} {st : St} (h : Inv p cfg Mf st) (st' : St)
+    (hm : st'.marks = st.marks) (hc : st'.cache = st.cache) : Inv p cfg Mf st' :=
+  h.step st' hc (hm ▸ fun _ hx => hx) (hm ▸ h.m) (hm ▸ h.fnj)
+
+theorem findSvc_mem (p : Program) {g : Nat} {n : Bytes} {b : Service} (h : findSvc p g n = some b) : b ∈ (p.file g).services :=
+  List.mem_of_find?_eq_some h
+
+theorem nextSvc_mem (p : Program) {f g : Nat} {svc b : Service} (h : nextSvc p f svc = some (g, b)) : b ∈ (p.file g).services := by
+  unfold nextSvc at h
+  split at h
+  · simp only [Option.map_eq_some_iff] at h
+    obtain ⟨a, ha, he⟩ := h
+    cases he
+    exact findSvc_mem p ha
+  · split at h
+    · cases h
+    · simp only [Option.map_eq_some_iff] at h
+      obtain ⟨a, ha, he⟩ := h
+      cases he
+      exact findSvc_mem p ha
+
+theorem trace_inv (p : Program) (cfg : Cfg) (Mf : Marks) (ms : List Bytes) :
+    ∀ (j : Nat) (fathers : List Bytes) (f : Nat) (svc : Service) (st : St), svc ∈ (p.file f).services →
+      Inv p cfg Mf st → (trace p cfg ms j fathers f svc st).1.marks ⊆ Mf →
+      Inv p cfg Mf (trace p cfg ms j fathers f svc st).1 := by
+  intro j
+  induction j with
+  | zero => intro fathers f svc st _ h _; exact h.same _ rfl rfl
+  | succ j ih =>
+    intro fathers f svc st hs h hMf
+    have hfold := foldFns_ext (traceStep_ext p cfg ms fathers f svc) svc.fns st
+    have hinv := foldFns_inv (traceStep_ok p cfg Mf ms fathers hs) svc.fns st (fun _ hfn => hfn) h
+    revert hMf
+    unfold trace
+    simp only
+    generalize svc.fns.foldl (traceStep p cfg ms fathers f svc) st = st1 at hfold hinv ⊢
+    split
+    · split
+      · intro hMf
+        have e := traceFinish_ext f svc { st1 with crash := true } (svc.fns.any (hitFathers cfg ms fathers))
+        exact traceFinish_inv p cfg Mf f svc _ _ ((hinv (fun _ hx => hMf (e.1 hx))).same _ rfl rfl)
+      · rename_i g b hnext
+        have i := ih (fathers ++ [b.name]) g b st1 (nextSvc_mem p hnext)
+        have ie := trace_ext p cfg ms j (fathers ++ [b.name]) g b st1
+        generalize trace p cfg ms j (fathers ++ [b.name]) g b st1 = r at i ie ⊢
+        split
+        · intro hMf
+          have e := traceFinish_ext f svc r.1 (r.2 || svc.fns.any (hitFathers cfg ms fathers))
+          exact traceFinish_inv p cfg Mf f svc _ _ (i (hinv (fun _ hx => hMf (e.1 (ie.1 hx)))) (fun _ hx => hMf (e.1 hx)))
+        · intro hMf
+          have e := traceFinish_ext f svc { r.1 with ext := (f, svc.name) :: r.1.ext } (r.2 || svc.fns.any (hitFathers cfg ms fathers))
+          exact traceFinish_inv p cfg Mf f svc _ _
+            ((i (hinv (fun _ hx => hMf (e.1 (ie.1 hx)))) (fun _ hx => hMf (e.1 hx))).same _ rfl rfl)
+    · intro hMf
+      have e := traceFinish_ext f svc st1 (svc.fns.any (hitFathers cfg ms fathers))
+      exact traceFinish_inv p cfg Mf f svc _ _ (hinv (fun _ hx => hMf (e.1 hx)))
+
+
+theorem svcStep_ext (p : Program) (cfg : Cfg) (ms : List Bytes) (f : Nat) (svc : Service) (st : St) (fn : Function) :
+    Ext st (svcStep p cfg ms f svc st fn) := by
+  unfold svcStep
+  split
+  · exact ⟨markFunction_sub p f _ _ fn, rfl, fun h => h⟩
+  · split
+    · exact ⟨markSvcFn_sub p f svc st fn, rfl, fun h => h⟩
+    · exact Ext.refl _
+
+theorem markService_ext (p : Program) (cfg : Cfg) (ms : List Bytes) : ∀ (j f : Nat) (svc : Service) (st : St),
+    Ext st (markService p cfg ms j f svc st) := by
+  intro j
+  induction j with
+  | zero => intro f svc st; exact ⟨fun _ h => h, rfl, fun _ => rfl⟩
+  | succ j ih =>
+    intro f svc st
+    unfold markService
+    split
+    · exact Ext.refl _
+    · simp only
+      have e0 : Ext st (if ms.isEmpty = true then { st with marks := Node.svc f svc.name :: st.marks } else st) := by
+        split
+        · exact ⟨fun _ h => List.mem_cons_of_mem _ h, rfl, fun h => h⟩
+        · exact Ext.refl _
+      generalize (if ms.isEmpty = true then { st with marks := Node.svc f svc.name :: st.marks } else st) = st0 at e0 ⊢
+      have e1 := foldFns_ext (svcStep_ext p cfg ms f svc) svc.fns st0
+      generalize svc.fns.foldl (svcStep p cfg ms f svc) st0 = st1 at e1 ⊢
+      have e2 : Ext st1 (if (!ms.isEmpty && (decide (svc.ext ≠ []) || svc.ref.isSome)) = true then
+          (trace p cfg ms (svcCount p + 1) [svc.name] f svc st1).1 else st1) := by
+        split
+        · exact trace_ext p cfg ms _ _ f svc st1
+        · exact Ext.refl _
+      generalize (if (!ms.isEmpty && (decide (svc.ext ≠ []) || svc.ref.isSome)) = true then
+          (trace p cfg ms (svcCount p + 1) [svc.name] f svc st1).1 else st1) = st2 at e2 ⊢
+      refine e0.trans (e1.trans (e2.trans ?_))
+      split
+      · split
+        · exact Ext.refl _
+        · split
+          · exact ⟨fun _ h => h, rfl, fun _ => rfl⟩
+          · rename_i i _ _ g _
+            have e3 : Ext st2 { st2 with marks := insInc f i st2.marks } := ⟨insInc_sub _ _ _, rfl, fun h => h⟩
+            split
+            · exact e3
+            · exact e3.trans (ih _ _ _)
+      · exact Ext.refl _
+
+
+theorem markService_inv (p : Program) (cfg : Cfg) (Mf : Marks) (ms : List Bytes) : ∀ (j f : Nat) (svc : Service) (st : St),
+    svc ∈ (p.file f).services → Inv p cfg Mf st → (markService p cfg ms j f svc st).marks ⊆ Mf →
+    Inv p cfg Mf (markService p cfg ms j f svc st) := by
+  intro j
+  induction j with
+  | zero => intro f svc st _ h _; exact h.same _ rfl rfl
+  | succ j ih =>
+    intro f svc st hs h
+    unfold markService
+    split
+    · intro _; exact h
+    · simp only
+      have e0 : Ext st (if ms.isEmpty = true then { st with marks := Node.svc f svc.name :: st.marks } else st) := by
+        split
+        · exact ⟨fun _ h => List.mem_cons_of_mem _ h, rfl, fun h => h⟩
+        · exact Ext.refl _
+      have i0 : Inv p cfg Mf (if ms.isEmpty = true then { st with marks := Node.svc f svc.name :: st.marks } else st) := by
+        split
+        · exact h.step _ rfl (fun _ hx => List.mem_cons_of_mem _ hx) (h.m.cons_leaf _ rfl rfl)
+            (h.fnj.cons_other _ (fun _ _ _ => by simp))
+        · exact h
+      generalize (if ms.isEmpty = true then { st with marks := Node.svc f svc.name :: st.marks } else st) = st0 at e0 i0 ⊢
+      have e1 := foldFns_ext (svcStep_ext p cfg ms f svc) svc.fns st0
+      have i1 := foldFns_inv (svcStep_ok p cfg Mf ms hs) svc.fns st0 (fun _ hfn => hfn) i0
+      generalize svc.fns.foldl (svcStep p cfg ms f svc) st0 = st1 at e1 i1 ⊢
+      have e2 : Ext st1 (if (!ms.isEmpty && (decide (svc.ext ≠ []) || svc.ref.isSome)) = true then
+          (trace p cfg ms (svcCount p + 1) [svc.name] f svc st1).1 else st1) := by
+        split
+        · exact trace_ext p cfg ms _ _ f svc st1
+        · exact Ext.refl _
+      have i2 : Inv p cfg Mf st1 → (if (!ms.isEmpty && (decide (svc.ext ≠ []) || svc.ref.isSome)) = true then
+          (trace p cfg ms (svcCount p + 1) [svc.name] f svc st1).1 else st1).marks ⊆ Mf →
+          Inv p cfg Mf (if (!ms.isEmpty && (decide (svc.ext ≠ []) || svc.ref.isSome)) = true then
+          (trace p cfg ms (svcCount p + 1) [svc.name] f svc st1).1 else st1) := by
+        split
+        · exact fun h1 hm => trace_inv p cfg Mf ms _ _ f svc st1 hs h1 hm
+        · exact fun h1 _ => h1
+      generalize (if (!ms.isEmpty && (decide (svc.ext ≠ []) || svc.ref.isSome)) = true then
+          (trace p cfg ms (svcCount p + 1) [svc.name] f svc st1).1 else st1) = st2 at e2 i2 ⊢
+      have fin : st2.marks ⊆ Mf → Inv p cfg Mf st2 := fun hm => i2 (i1 (fun _ hx => hm (e2.1 hx))) hm
+      split
+      · split
+        · exact fin
+        · split
+          · intro hm; exact (fin hm).same _ rfl rfl
+          · rename_i i _ _ g _
+            have e3 : Ext st2 { st2 with marks := insInc f i st2.marks } := ⟨insInc_sub _ _ _, rfl, fun h => h⟩
+            have i3 : st2.marks ⊆ Mf → Inv p cfg Mf { st2 with marks := insInc f i st2.marks } := fun hm =>
+              (fin hm).step _ rfl (insInc_sub _ _ _) ((fin hm).m.insInc _ _) ((fin hm).fnj.insInc _ _)
+            split
+            · intro hm; exact i3 (fun _ hx => hm (e3.1 hx))
+            · rename_i b hb
+              intro hm
+              have e4 := markService_ext p cfg ms j g b { st2 with marks := insInc f i st2.marks }
+              exact ih g b _ (findSvc_mem p hb) (i3 (fun _ hx => hm (e4.1 (e3.1 hx)))) hm
+      · exact fin
+
+
+/-! ### markKeptPart / preProcess -/
+
+theorem mem_sls_iff (file : File) (ks : SLKind × StructLike) : ks ∈ file.sls ↔ ks.2 ∈ file.sl ks.1 := by
+  obtain ⟨k, s⟩ := ks
+  cases k <;> simp [File.sls, File.sl]
+
+theorem sls_node_mem (p : Program) {f : Nat} {ks : SLKind × StructLike} (h : ks ∈ (p.file f).sls) :
+    Node.sl f ks.1 ks.2.name ∈ allNodes p := by
+  apply fileNodes_sub p (f := f)
+  have := (mem_sls_iff _ ks).mp h
+  obtain ⟨k, s⟩ := ks
+  simp only [fileNodes, List.mem_append, List.mem_map]
+  cases k
+  · exact Or.inl (Or.inl (Or.inl (Or.inl (Or.inr ⟨s, this, rfl⟩))))
+  · exact Or.inl (Or.inl (Or.inl (Or.inr ⟨s, this, rfl⟩)))
+  · exact Or.inl (Or.inl (Or.inr ⟨s, this, rfl⟩))
+
+theorem keptFold_inv (p : Program) (cfg : Cfg) (Q : Node → Prop) (hQ : ∀ m x, Q m → x ∈ succs p m → Q x) (f : Nat) :
+    ∀ (l : List (SLKind × StructLike)) (a : Marks × Bool), (∀ ks ∈ l, ks ∈ (p.file f).sls) →
+      (∀ ks ∈ l, checkPreserve cfg ks.2 = true → Q (Node.sl f ks.1 ks.2.name)) → MInv p Q a.1 →
+      MInv p Q (l.foldl (keptStep p cfg f) a).1 ∧ Grows p a.1 (l.foldl (keptStep p cfg f) a).1 ∧
+        (∀ ks ∈ l, checkPreserve cfg ks.2 = true → Node.sl f ks.1 ks.2.name ∈ (l.foldl (keptStep p cfg f) a).1) := by
+  intro l
+  induction l with
+  | nil => intro a _ _ h; exact ⟨h, Grows.refl p _, by simp⟩
+  | cons ks l ih =>
+    intro a hall hq h
+    have hstep : MInv p Q (keptStep p cfg f a ks).1 ∧ Grows p a.1 (keptStep p cfg f a ks).1 ∧
+        (checkPreserve cfg ks.2 = true → Node.sl f ks.1 ks.2.name ∈ (keptStep p cfg f a ks).1) := by
+      unfold keptStep
+      split
+      · rename_i hc
+        simp only [Bool.and_eq_true] at hc
+        have := visitList_inv p Q hQ [Node.sl f ks.1 ks.2.name] a.1
+          (fun n hn => by rw [List.mem_singleton.mp hn]; exact sls_node_mem p (hall ks (List.mem_cons_self)))
+          (fun n hn => by rw [List.mem_singleton.mp hn]; exact hq ks (List.mem_cons_self) hc.2) h
+        simp only [List.foldl_cons, List.foldl_nil] at this
+        exact ⟨this.1, this.2.1, fun _ => this.2.2 _ (List.mem_singleton.mpr rfl)⟩
+      · rename_i hc
+        refine ⟨h, Grows.refl p _, fun hp => ?_⟩
+        simp only [Bool.and_eq_true, hp, and_true, Bool.not_eq_true', Bool.not_eq_false] at hc
+        exact List.contains_iff_mem.mp hc
+    obtain ⟨s1, s2, s3⟩ := hstep
+    obtain ⟨t1, t2, t3⟩ := ih (keptStep p cfg f a ks) (fun x hx => hall x (List.mem_cons_of_mem _ hx))
+      (fun x hx => hq x (List.mem_cons_of_mem _ hx)) s1
+    simp only [List.foldl_cons]
+    refine ⟨t1, s2.trans t2, ?_⟩
+    intro x hx hp
+    rcases List.mem_cons.mp hx with hx | hx
+    · subst hx; exact t2.sub (s3 hp)
+    · exact t3 x hx hp
+
+theorem cacheGet_mem : ∀ (c : List (Nat × Bool)) (f : Nat) (r : Bool), cacheGet c f = some r → (f, r) ∈ c := by
+  intro c
+  induction c with
+  | nil => intro f r h; simp [cacheGet] at h
+  | cons x c ih =>
+    intro f r h
+    obtain ⟨g, b⟩ := x
+    unfold cacheGet at h
+    split at h
+    · rename_i hg
+      cases h
+      subst hg
+      exact List.mem_cons_self
+    · exact List.mem_cons_of_mem _ (ih f r h)
+
+/-- marks and cache only grow -/
+def Mono (st st' : St) : Prop := st.marks ⊆ st'.marks ∧ st.cache ⊆ st'.cache ∧ (st.crash = true → st'.crash = true)
+
+theorem Mono.refl (st : St) : Mono st st := ⟨fun _ h => h, fun _ h => h, fun h => h⟩
+theorem Mono.trans {a b c : St} (h1 : Mono a b) (h2 : Mono b c) : Mono a c :=
+  ⟨fun _ h => h2.1 (h1.1 h), fun _ h => h2.2.1 (h1.2.1 h), fun h => h2.2.2 (h1.2.2 h)⟩
+theorem Ext.mono {a b : St} (h : Ext a b) : Mono a b := ⟨h.1, fun _ hx => h.2.1 ▸ hx, h.2.2⟩
+
+theorem keptFold_sub (p : Program) (cfg : Cfg) (f : Nat) : ∀ (l : List (SLKind × StructLike)) (a : Marks × Bool),
+    a.1 ⊆ (l.foldl (keptStep p cfg f) a).1 := by
+  intro l
+  induction l with
+  | nil => intro a _ h; exact h
+  | cons ks l ih =>
+    intro a x hx
+    apply ih (keptStep p cfg f a ks)
+    unfold keptStep
+    split
+    · exact visit_sub p _ _ _ hx
+    · exact hx
+
+theorem markKeptPart_mono (p : Program) (cfg : Cfg) (f : Nat) (st : St) : Mono st (markKeptPart p cfg f st).1 := by
+  unfold markKeptPart
+  split
+  · exact Mono.refl _
+  · simp only
+    refine ⟨?_, fun _ h => List.mem_cons_of_mem _ h, fun h => h⟩
+    intro x hx
+    have h1 := markTypes_sub p f _ ((p.file f).typedefs.map (·.ty)) (markTypes_sub p f st.marks ((p.file f).consts.map (·.ty)) hx)
+    split
+    · exact h1
+    · exact keptFold_sub p cfg f _ _ h1
+
+theorem markKeptPart_cached (p : Program) (cfg : Cfg) (f : Nat) (st : St) : ∃ r, (f, r) ∈ (markKeptPart p cfg f st).1.cache := by
+  unfold markKeptPart
+  split
+  · rename_i r hr
+    exact ⟨r, cacheGet_mem _ _ _ hr⟩
+  · exact ⟨_, List.mem_cons_self⟩
+
+theorem checkPreserve_force {cfg : Cfg} (h : cfg.force = true) (s : StructLike) : checkPreserve cfg s = false := by
+  simp [checkPreserve, h]
+
+theorem markKeptPart_inv (p : Program) (cfg : Cfg) (Mf : Marks) (f : Nat) (st : St) (hr : InclReach p f)
+    (h : Inv p cfg Mf st) : Inv p cfg Mf (markKeptPart p cfg f st).1 := by
+  unfold markKeptPart
+  split
+  · exact h
+  · simp only
+    have hQ := reach_closed p cfg Mf
+    obtain ⟨a1, a2, a3⟩ := markTypes_inv p _ hQ f ((p.file f).consts.map (·.ty)) st.marks
+      (fun ty hty x hx => by
+        obtain ⟨c, hc, rfl⟩ := List.mem_map.mp hty
+        exact Reach.root (Root.const hr hc (tyRef_of_mem p f _ _ hx))) h.m
+    obtain ⟨b1, b2, b3⟩ := markTypes_inv p _ hQ f ((p.file f).typedefs.map (·.ty)) _
+      (fun ty hty x hx => by
+        obtain ⟨t, ht, rfl⟩ := List.mem_map.mp hty
+        exact Reach.root (Root.typedef hr ht (tyRef_of_mem p f _ _ hx))) a1
+    generalize markTypes p f (markTypes p f st.marks ((p.file f).consts.map (·.ty))) ((p.file f).typedefs.map (·.ty)) = M1 at b1 b2 b3
+    have g01 : Grows p st.marks M1 := a2.trans b2
+    have hfin : ∀ (R : Marks) (b : Bool), MInv p (Reach p cfg Mf) R → Grows p M1 R →
+        (∀ ks ∈ (p.file f).sls, checkPreserve cfg ks.2 = true → Node.sl f ks.1 ks.2.name ∈ R) →
+        Inv p cfg Mf { st with marks := R, cache := (f, b) :: st.cache } := by
+      intro R b mR gR hpres
+      have g := g01.trans gR
+      refine ⟨mR, h.fnj.grows g, ?_⟩
+      intro f' r' hfr
+      rcases List.mem_cons.mp hfr with hfr | hfr
+      · cases hfr
+        refine ⟨?_, ?_, hpres⟩
+        · intro c hc x hx
+          exact gR.sub (b2.sub (a3 _ (List.mem_map.mpr ⟨c, hc, rfl⟩) x hx))
+        · intro t ht x hx
+          exact gR.sub (b3 _ (List.mem_map.mpr ⟨t, ht, rfl⟩) x hx)
+      · exact (h.kept f' r' hfr).mono g.sub
+    split
+    · rename_i hforce
+      exact hfin M1 _ b1 (Grows.refl p _) (fun ks _ hp => by rw [checkPreserve_force hforce] at hp; cases hp)
+    · obtain ⟨c1, c2, c3⟩ := keptFold_inv p cfg _ hQ f (p.file f).sls
+        (M1, !(p.file f).consts.isEmpty || !(p.file f).typedefs.isEmpty) (fun _ hk => hk)
+        (fun ks hk hp => Reach.root (Root.preserved hr ((mem_sls_iff _ ks).mp hk) hp)) b1
+      exact hfin _ _ c1 c2 c3
+
+
+inductive Path (p : Program) : Nat → Nat → Prop
+  | refl (f : Nat) : Path p f f
+  | step {f i g h : Nat} : p.incTarget f i = some g → Path p g h → Path p f h
+
+theorem Path.snoc {p : Program} {a b c i : Nat} (h : Path p a b) (hi : p.incTarget b i = some c) : Path p a c := by
+  induction h with
+  | refl f => exact Path.step hi (Path.refl _)
+  | step h1 _ ih => exact Path.step h1 (ih hi)
+
+theorem path_of_inclReach {p : Program} {g : Nat} (h : InclReach p g) : Path p 0 g := by
+  induction h with
+  | root => exact Path.refl 0
+  | step _ hi ih => exact ih.snoc hi
+
+theorem inclReach_of_path {p : Program} {f g : Nat} (hf : InclReach p f) (h : Path p f g) : InclReach p g := by
+  induction h with
+  | refl f => exact hf
+  | step hi _ ih => exact ih (InclReach.step hf hi)
+
+theorem zipIdx_incTarget (p : Program) {f : Nat} {ii : Include × Nat} (h : ii ∈ (p.file f).includes.zipIdx) :
+    p.incTarget f ii.2 = some ii.1.target := by
+  have := List.mem_zipIdx_iff_getElem?.mp h
+  simp [Program.incTarget, this]
+
+theorem preStep_mono {rec : Nat → St → St × Bool} (hrec : ∀ g st, Mono st (rec g st).1) (f : Nat) (a : St × Bool) (ii : Include × Nat) :
+    Mono a.1 (preStep rec f a ii).1 := by
+  unfold preStep
+  simp only
+  split
+  · exact (hrec ii.1.target a.1).trans ⟨fun _ h => List.mem_cons_of_mem _ h, fun _ h => h, fun h => h⟩
+  · exact hrec ii.1.target a.1
+
+theorem foldPre_mono {rec : Nat → St → St × Bool} (hrec : ∀ g st, Mono st (rec g st).1) (f : Nat) :
+    ∀ (l : List (Include × Nat)) (a : St × Bool), Mono a.1 (l.foldl (preStep rec f) a).1 := by
+  intro l
+  induction l with
+  | nil => intro a; exact Mono.refl _
+  | cons x l ih => intro a; exact (preStep_mono hrec f a x).trans (ih _)
+
+theorem preProcess_mono (p : Program) (cfg : Cfg) : ∀ (j f : Nat) (st : St), Mono st (preProcess p cfg j f st).1 := by
+  intro j
+  induction j with
+  | zero => intro f st; exact ⟨fun _ h => h, fun _ h => h, fun _ => rfl⟩
+  | succ j ih =>
+    intro f st
+    unfold preProcess
+    exact (markKeptPart_mono p cfg f st).trans (foldPre_mono ih f _ _)
+
+theorem preProcess_inv (p : Program) (cfg : Cfg) (Mf : Marks) : ∀ (j f : Nat) (st : St), InclReach p f →
+    Inv p cfg Mf st → Inv p cfg Mf (preProcess p cfg j f st).1 := by
+  intro j
+  induction j with
+  | zero => intro f st _ h; exact h.same _ rfl rfl
+  | succ j ih =>
+    intro f st hr h
+    unfold preProcess
+    have key : ∀ (l : List (Include × Nat)) (a : St × Bool), (∀ ii ∈ l, ii ∈ (p.file f).includes.zipIdx) →
+        Inv p cfg Mf a.1 → Inv p cfg Mf (l.foldl (preStep (preProcess p cfg j) f) a).1 := by
+      intro l
+      induction l with
+      | nil => intro a _ ha; exact ha
+      | cons ii l ihl =>
+        intro a hall ha
+        simp only [List.foldl_cons]
+        apply ihl _ (fun x hx => hall x (List.mem_cons_of_mem _ hx))
+        have hi := ih ii.1.target a.1 (InclReach.step hr (zipIdx_incTarget p (hall ii (List.mem_cons_self)))) ha
+        unfold preStep
+        simp only
+        split
+        · exact ⟨hi.m.cons_leaf _ rfl rfl, hi.fnj.cons_other _ (fun _ _ _ => by simp),
+            fun f' r' hfr => (hi.kept f' r' hfr).mono (fun _ hx => List.mem_cons_of_mem _ hx)⟩
+        · exact hi
+    exact key _ _ (fun _ h => h) (markKeptPart_inv p cfg Mf f st hr h)
+
+theorem preProcess_cached (p : Program) (cfg : Cfg) : ∀ (j f : Nat) (st : St), (preProcess p cfg j f st).1.crash = false →
+    ∀ g, Path p f g → ∃ r, (g, r) ∈ (preProcess p cfg j f st).1.cache := by
+  intro j
+  induction j with
+  | zero => intro f st hc; simp [preProcess] at hc
+  | succ j ih =>
+    intro f st
+    unfold preProcess
+    have hrec := preProcess_mono p cfg j
+    have key : ∀ (l : List (Include × Nat)) (a : St × Bool), (l.foldl (preStep (preProcess p cfg j) f) a).1.crash = false →
+        ∀ ii ∈ l, ∀ g, Path p ii.1.target g → ∃ r, (g, r) ∈ (l.foldl (preStep (preProcess p cfg j) f) a).1.cache := by
+      intro l
+      induction l with
+      | nil => intro a _ ii hii; simp at hii
+      | cons x l ihl =>
+        intro a hc ii hii g hg
+        simp only [List.foldl_cons] at hc ⊢
+        rcases List.mem_cons.mp hii with hii | hii
+        · subst hii
+          have m2 := foldPre_mono hrec f l (preStep (preProcess p cfg j) f a ii)
+          have hc1 : (preProcess p cfg j ii.1.target a.1).1.crash = false := by
+            cases hcr : (preProcess p cfg j ii.1.target a.1).1.crash with
+            | false => rfl
+            | true =>
+              have : (preStep (preProcess p cfg j) f a ii).1.crash = true := by
+                unfold preStep
+                simp only
+                split <;> exact hcr
+              rw [m2.2.2 this] at hc
+              cases hc
+          obtain ⟨r, hr⟩ := ih ii.1.target a.1 hc1 g hg
+          refine ⟨r, m2.2.1 ?_⟩
+          unfold preStep
+          simp only
+          split <;> exact hr
+        · exact ihl _ hc ii hii g hg
+    intro hc g hg
+    cases hg with
+    | refl =>
+      obtain ⟨r, hr⟩ := markKeptPart_cached p cfg f st
+      exact ⟨r, (foldPre_mono hrec f _ _).2.1 hr⟩
+    | @step _ i g1 _ hi hp =>
+      have hlt := incTarget_lt p hi
+      have hmem : ((p.file f).includes[i], i) ∈ (p.file f).includes.zipIdx := by
+        apply List.mem_zipIdx_iff_getElem?.mpr
+        simp [List.getElem?_eq_getElem hlt]
+      have ht : ((p.file f).includes[i]).target = g1 := by
+        simp [Program.incTarget, List.getElem?_eq_getElem hlt] at hi
+        exact hi
+      exact key _ _ hc _ hmem g (by simpa [ht] using hp)
+
+
+/-! ### markAST -/
+
+theorem foldSvc_ext (p : Program) (cfg : Cfg) (ms : List Bytes) (j f : Nat) : ∀ (l : List Service) (st : St),
+    Ext st (l.foldl (fun st svc => markService p cfg ms j f svc st) st) := by
+  intro l
+  induction l with
+  | nil => intro st; exact Ext.refl _
+  | cons a l ih => intro st; exact (markService_ext p cfg ms j f a st).trans (ih _)
+
+theorem foldSvc_inv (p : Program) (cfg : Cfg) (Mf : Marks) (ms : List Bytes) (j f : Nat) : ∀ (l : List Service) (st : St),
+    (∀ svc ∈ l, svc ∈ (p.file f).services) → Inv p cfg Mf st →
+    (l.foldl (fun st svc => markService p cfg ms j f svc st) st).marks ⊆ Mf →
+    Inv p cfg Mf (l.foldl (fun st svc => markService p cfg ms j f svc st) st) := by
+  intro l
+  induction l with
+  | nil => intro st _ h _; exact h
+  | cons a l ih =>
+    intro st hall h hMf
+    simp only [List.foldl_cons] at hMf ⊢
+    have e := foldSvc_ext p cfg ms j f l (markService p cfg ms j f a st)
+    exact ih _ (fun x hx => hall x (List.mem_cons_of_mem _ hx))
+      (markService_inv p cfg Mf ms j f a st (hall a (List.mem_cons_self)) h (fun _ hx => hMf (e.1 hx))) hMf
+
+theorem inv_init (p : Program) (cfg : Cfg) (Mf : Marks) : Inv p cfg Mf St.init :=
+  ⟨⟨fun m hm => by simp [St.init] at hm, fun m hm => by simp [St.init] at hm⟩,
+   fun f s n hn => by simp [St.init] at hn, fun f r h => by simp [St.init] at h⟩
+
+/-- the three stages of markAST -/
+def stage1 (p : Program) (cfg : Cfg) : St := (preProcess p cfg (p.files.length + 1) 0 St.init).1
+def stage2 (p : Program) (cfg : Cfg) : St :=
+  (p.file 0).services.foldl (fun st svc => markService p cfg (effMethods p cfg) (p.files.length + 1) 0 svc st) (stage1 p cfg)
+
+theorem markAST_eq (p : Program) (cfg : Cfg) : markAST p cfg = (markKeptPart p cfg 0 (stage2 p cfg)).1 := rfl
+
+theorem stage1_mono_final (p : Program) (cfg : Cfg) : Mono (stage1 p cfg) (markAST p cfg) := by
+  rw [markAST_eq]
+  exact (foldSvc_ext p cfg _ _ 0 _ (stage1 p cfg)).mono.trans (markKeptPart_mono p cfg 0 _)
+
+theorem markAST_inv (p : Program) (cfg : Cfg) : Inv p cfg (markAST p cfg).marks (markAST p cfg) := by
+  have h1 : Inv p cfg (markAST p cfg).marks (stage1 p cfg) :=
+    preProcess_inv p cfg _ _ 0 St.init InclReach.root (inv_init p cfg _)
+  have h2 : Inv p cfg (markAST p cfg).marks (stage2 p cfg) :=
+    foldSvc_inv p cfg _ _ _ 0 _ (stage1 p cfg) (fun _ h => h) h1
+      (by rw [markAST_eq]; exact (markKeptPart_mono p cfg 0 _).1)
+  rw [markAST_eq] at *
+  exact markKeptPart_inv p cfg _ 0 _ InclReach.root h2
+
+theorem nodup_map_inj {α β : Type} (g : α → β) : ∀ (l : List α), (l.map g).Nodup → ∀ a ∈ l, ∀ b ∈ l, g a = g b → a = b := by
+  intro l
+  induction l with
+  | nil => intro _ a ha; simp at ha
+  | cons x l ih =>
+    intro hn a ha b hb hab
+    simp only [List.map_cons, List.nodup_cons, List.mem_map, not_exists, not_and] at hn
+    rcases List.mem_cons.mp ha with ha1 | ha1 <;> rcases List.mem_cons.mp hb with hb1 | hb1
+    · rw [ha1, hb1]
+    · rw [ha1] at hab; exact absurd hab.symm (hn.1 b hb1)
+    · rw [hb1] at hab; exact absurd hab (hn.1 a ha1)
+    · exact ih hn.2 a ha1 b hb1 hab
+
+theorem kept_of_inclReach (p : Program) (cfg : Cfg) (hc : (markAST p cfg).crash = false) {f : Nat} (hr : InclReach p f) :
+    KeptOK p cfg f (markAST p cfg).marks := by
+  have m := stage1_mono_final p cfg
+  have hc1 : (stage1 p cfg).crash = false := by
+    cases h : (stage1 p cfg).crash with
+    | false => rfl
+    | true => rw [m.2.2 h] at hc; cases hc
+  obtain ⟨r, hr'⟩ := preProcess_cached p cfg _ 0 St.init hc1 f (path_of_inclReach hr)
+  exact (markAST_inv p cfg).kept f r (m.2.1 hr')
+
+theorem root_marked (p : Program) (cfg : Cfg) (hc : (markAST p cfg).crash = false) (hu : UniqueSvcFn p) {n : Node}
+    (h : Root p cfg (markAST p cfg).marks n) : n ∈ (markAST p cfg).marks := by
+  cases h with
+  | fn hs hf hm hty href =>
+    obtain ⟨svc', hs', e1, fn', hf', e2, ht⟩ := (markAST_inv p cfg).fnj _ _ _ hm
+    have es := nodup_map_inj (·.name) _ (hu _).1 svc' hs' _ hs e1
+    subst es
+    have ef := nodup_map_inj (·.name) _ ((hu _).2 svc' hs) fn' hf' _ hf e2
+    subst ef
+    exact ht _ hty _ (mem_of_tyRef p _ href)
+  | const hr hcm href => exact (kept_of_inclReach p cfg hc hr).1 _ hcm _ (mem_of_tyRef p _ href)
+  | typedef hr ht href => exact (kept_of_inclReach p cfg hc hr).2.1 _ ht _ (mem_of_tyRef p _ href)
+  | @preserved f k s hr hs hp => exact (kept_of_inclReach p cfg hc hr).2.2 (k, s) ((mem_sls_iff _ (k, s)).mpr hs) hp
+
+theorem reach_marked (p : Program) (cfg : Cfg) (hc : (markAST p cfg).crash = false) (hu : UniqueSvcFn p) {n : Node}
+    (h : Reach p cfg (markAST p cfg).marks n) : n ∈ (markAST p cfg).marks := by
+  induction h with
+  | root hr => exact root_marked p cfg hc hu hr
+  | step _ he ih => exact (markAST_inv p cfg).m.closed _ ih _ ((edge_iff p _ _).mp he)
+
+
+
+
+/-! ### which kinds of marks a step can add -/
+
+theorem visitList_grows (p : Program) (k : Nat) (ns : List Node) (M : Marks) (hall : ∀ n ∈ ns, n ∈ allNodes p) :
+    Grows p M (ns.foldl (visit p k) M) :=
+  ⟨fold_sub_of _ (visit_sub p k) ns M, fun m hm => fold_new p k ns M m hall hm⟩
+
+theorem markType_grows (p : Program) (f : Nat) (M : Marks) (ty : Ty) : Grows p M (markType p f M ty) :=
+  visitList_grows p _ _ M (fun _ hn => tyTargets_sub p f ty hn)
+
+theorem markTypes_grows (p : Program) (f : Nat) : ∀ (tys : List Ty) (M : Marks), Grows p M (markTypes p f M tys) := by
+  intro tys
+  induction tys with
+  | nil => intro M; exact Grows.refl p M
+  | cons t ts ih => intro M; exact (markType_grows p f M t).trans (ih _)
+
+theorem keptFold_grows (p : Program) (cfg : Cfg) (f : Nat) : ∀ (l : List (SLKind × StructLike)) (a : Marks × Bool),
+    (∀ ks ∈ l, ks ∈ (p.file f).sls) → Grows p a.1 (l.foldl (keptStep p cfg f) a).1 := by
+  intro l
+  induction l with
+  | nil => intro a _; exact Grows.refl p _
+  | cons ks l ih =>
+    intro a hall
+    simp only [List.foldl_cons]
+    refine Grows.trans ?_ (ih _ (fun x hx => hall x (List.mem_cons_of_mem _ hx)))
+    unfold keptStep
+    split
+    · have := visitList_grows p (fuelN p) [Node.sl f ks.1 ks.2.name] a.1
+        (fun n hn => by rw [List.mem_singleton.mp hn]; exact sls_node_mem p (hall ks (List.mem_cons_self)))
+      simpa using this
+    · exact Grows.refl p _
+
+theorem markKeptPart_grows (p : Program) (cfg : Cfg) (f : Nat) (st : St) : Grows p st.marks (markKeptPart p cfg f st).1.marks := by
+  unfold markKeptPart
+  split
+  · exact Grows.refl p _
+  · simp only
+    have g := (markTypes_grows p f ((p.file f).consts.map (·.ty)) st.marks).trans
+      (markTypes_grows p f ((p.file f).typedefs.map (·.ty)) _)
+    split
+    · exact g
+    · exact g.trans (keptFold_grows p cfg f _ (_, _) (fun _ h => h))
+
+/-- marks that are not service or function marks -/
+def OnlyTargets (M : Marks) : Prop := ∀ m ∈ M, m.isTarget = true
+
+theorem OnlyTargets.grows {p : Program} {M R : Marks} (h : OnlyTargets M) (g : Grows p M R) : OnlyTargets R := by
+  intro m hm
+  rcases g.new m hm with hm | hm
+  · exact h m hm
+  · exact allNodes_isTarget p hm
+
+theorem preProcess_targets (p : Program) (cfg : Cfg) : ∀ (j f : Nat) (st : St), OnlyTargets st.marks →
+    OnlyTargets (preProcess p cfg j f st).1.marks := by
+  intro j
+  induction j with
+  | zero => intro f st h; exact h
+  | succ j ih =>
+    intro f st h
+    unfold preProcess
+    have key : ∀ (l : List (Include × Nat)) (a : St × Bool), OnlyTargets a.1.marks →
+        OnlyTargets (l.foldl (preStep (preProcess p cfg j) f) a).1.marks := by
+      intro l
+      induction l with
+      | nil => intro a ha; exact ha
+      | cons ii l ihl =>
+        intro a ha
+        simp only [List.foldl_cons]
+        apply ihl
+        have hi := ih ii.1.target a.1 ha
+        unfold preStep
+        simp only
+        split
+        · intro m hm
+          rcases List.mem_cons.mp hm with hm | hm
+          · subst hm; rfl
+          · exact hi m hm
+        · exact hi
+    exact key _ _ (h.grows (markKeptPart_grows p cfg f st))
+
+/-! ### without a method filter every marked service is complete -/
+
+theorem SvcOK.mono {p : Program} {M R : Marks} {f : Nat} {svc : Service} (h : SvcOK p M f svc) (hs : M ⊆ R) : SvcOK p R f svc :=
+  ⟨fun fn hfn => hs (h.1 fn hfn), fun he rn i g hr hg =>
+    ⟨hs (h.2 he rn i g hr hg).1, fun b hb => hs ((h.2 he rn i g hr hg).2 b hb)⟩⟩
+
+/-- every marked service is complete, except the pending ones in `P` -/
+def SvcInv (p : Program) (M : Marks) (P : List (Nat × Bytes)) : Prop :=
+  ∀ f svc, svc ∈ (p.file f).services → Node.svc f svc.name ∈ M → (f, svc.name) ∈ P ∨ SvcOK p M f svc
+
+/-- service marks of `R` are those of `M` plus possibly the one of `(f, s)` -/
+def SvcNew (M R : Marks) (f : Nat) (s : Bytes) : Prop :=
+  ∀ g n, Node.svc g n ∈ R → Node.svc g n ∈ M ∨ (g = f ∧ n = s)
+
+theorem markFunction_svcNew (p : Program) (f : Nat) (s : Bytes) (M : Marks) (fn : Function) (g : Nat) (n : Bytes)
+    (h : Node.svc g n ∈ markFunction p f s M fn) : Node.svc g n ∈ M := by
+  unfold markFunction at h
+  rcases (markTypes_grows p f fn.types _).new _ h with h | h
+  · rcases List.mem_cons.mp h with h | h
+    · cases h
+    · exact h
+  · have := allNodes_isTarget p h
+    simp [Node.isTarget] at this
+
+theorem foldSvcStep_nofilter (p : Program) (cfg : Cfg) (f : Nat) (svc : Service) : ∀ (fns : List Function) (st : St),
+    (∀ fn ∈ fns, Node.fn f svc.name fn.name ∈ (fns.foldl (svcStep p cfg [] f svc) st).marks) ∧
+    (∀ g n, Node.svc g n ∈ (fns.foldl (svcStep p cfg [] f svc) st).marks → Node.svc g n ∈ st.marks) ∧
+    (fns.foldl (svcStep p cfg [] f svc) st).crash = st.crash := by
+  intro fns
+  induction fns with
+  | nil => intro st; exact ⟨by simp, fun _ _ h => h, rfl⟩
+  | cons a l ih =>
+    intro st
+    simp only [List.foldl_cons]
+    obtain ⟨i1, i2, i3⟩ := ih (svcStep p cfg [] f svc st a)
+    have hstep : svcStep p cfg [] f svc st a = { st with marks := markFunction p f svc.name st.marks a } := by
+      simp [svcStep]
+    refine ⟨?_, ?_, ?_⟩
+    · intro fn hfn
+      rcases List.mem_cons.mp hfn with hfn | hfn
+      · subst hfn
+        apply (foldFns_ext (svcStep_ext p cfg [] f svc) l _).1
+        rw [hstep]
+        exact markFunction_mem p f svc.name st.marks fn
+      · exact i1 fn hfn
+    · intro g n h
+      have := i2 g n h
+      rw [hstep] at this
+      exact markFunction_svcNew p f svc.name st.marks a g n this
+    · rw [i3, hstep]
+
+theorem markService_nofilter (p : Program) (cfg : Cfg) (hu : UniqueSvcFn p) : ∀ (j f : Nat) (svc : Service) (st : St) (P : List (Nat × Bytes)),
+    svc ∈ (p.file f).services → (markService p cfg [] j f svc st).crash = false → SvcInv p st.marks P →
+    SvcInv p (markService p cfg [] j f svc st).marks P ∧ Node.svc f svc.name ∈ (markService p cfg [] j f svc st).marks := by
+  intro j
+  induction j with
+  | zero => intro f svc st P _ hc; simp [markService] at hc
+  | succ j ih =>
+    intro f svc st P hs
+    unfold markService
+    split
+    · rename_i hm
+      intro _ hi
+      exact ⟨hi, hm⟩
+    · simp only [List.isEmpty_nil, if_true, Bool.not_true, Bool.false_and, Bool.false_eq_true, if_false]
+      obtain ⟨f1, f2, f3⟩ := foldSvcStep_nofilter p cfg f svc svc.fns { st with marks := Node.svc f svc.name :: st.marks }
+      have e1 := foldFns_ext (svcStep_ext p cfg [] f svc) svc.fns { st with marks := Node.svc f svc.name :: st.marks }
+      generalize svc.fns.foldl (svcStep p cfg [] f svc) { st with marks := Node.svc f svc.name :: st.marks } = st1 at f1 f2 f3 e1 ⊢
+      have hsvc1 : Node.svc f svc.name ∈ st1.marks := e1.1 (List.mem_cons_self)
+      have hsub : st.marks ⊆ st1.marks := fun _ hx => e1.1 (List.mem_cons_of_mem _ hx)
+      -- the state after the function loop: everything but `svc` itself is as before
+      have inv1 : ∀ {M : Marks}, st1.marks ⊆ M → (∀ g n, Node.svc g n ∈ M → Node.svc g n ∈ st1.marks) →
+          SvcInv p st.marks P → SvcInv p M ((f, svc.name) :: P) := by
+        intro M hM hnew hi g s hsg hmark
+        have h1 := f2 g s.name (hnew g s.name hmark)
+        rcases List.mem_cons.mp h1 with h1 | h1
+        · injection h1 with hg hn
+          rw [hg, hn]
+          exact Or.inl (List.mem_cons_self)
+        · rcases hi g s hsg h1 with h2 | h2
+          · exact Or.inl (List.mem_cons_of_mem _ h2)
+          · exact Or.inr (h2.mono (fun _ hx => hM (hsub hx)))
+      -- once `svc` is complete the pending entry can be dropped
+      have fin : ∀ {M : Marks}, SvcOK p M f svc → SvcInv p M ((f, svc.name) :: P) → SvcInv p M P := by
+        intro M hok hi g s hsg hmark
+        rcases hi g s hsg hmark with h | h
+        · rcases List.mem_cons.mp h with h | h
+          · injection h with hg hn
+            subst hg
+            have : s = svc := nodup_map_inj (·.name) _ (hu g).1 s hsg svc hs hn
+            subst this
+            exact Or.inr hok
+          · exact Or.inl h
+        · exact Or.inr h
+      split
+      · rename_i hext
+        split
+        · rename_i href
+          intro _ hi
+          refine ⟨fin ⟨f1, fun _ rn i g hr => by rw [href] at hr; cases hr⟩ (inv1 (fun _ h => h) (fun _ _ h => h) hi), hsvc1⟩
+        · rename_i rn i href
+          split
+          · intro hc; simp at hc
+          · rename_i g hg
+            have e3 : st1.marks ⊆ insInc f i st1.marks := insInc_sub _ _ _
+            have hnew3 : ∀ g' n, Node.svc g' n ∈ insInc f i st1.marks → Node.svc g' n ∈ st1.marks := by
+              intro g' n h
+              unfold insInc at h
+              split at h
+              · exact h
+              · rcases List.mem_cons.mp h with h | h
+                · cases h
+                · exact h
+            split
+            · rename_i hb
+              intro _ hi
+              refine ⟨fin ⟨fun fn hfn => e3 (f1 fn hfn), fun _ rn' i' g' hr hg' => ?_⟩ (inv1 e3 hnew3 hi), e3 hsvc1⟩
+              rw [href] at hr
+              cases hr
+              rw [hg] at hg'
+              cases hg'
+              exact ⟨insInc_mem _ _ _, fun b hb' => by rw [hb] at hb'; cases hb'⟩
+            · rename_i b hb
+              intro hc hi
+              obtain ⟨r1, r2⟩ := ih g b { st1 with marks := insInc f i st1.marks } ((f, svc.name) :: P)
+                (findSvc_mem p hb) hc (inv1 e3 hnew3 hi)
+              have e4 := (markService_ext p cfg [] j g b { st1 with marks := insInc f i st1.marks }).1
+              refine ⟨fin ⟨fun fn hfn => e4 (e3 (f1 fn hfn)), fun _ rn' i' g' hr hg' => ?_⟩ r1, e4 (e3 hsvc1)⟩
+              rw [href] at hr
+              cases hr
+              rw [hg] at hg'
+              cases hg'
+              exact ⟨e4 (insInc_mem _ _ _), fun b' hb' => by rw [hb] at hb'; cases hb'; exact r2⟩
+      · rename_i hext
+        intro _ hi
+        refine ⟨fin ⟨f1, fun he => ?_⟩ (inv1 (fun _ h => h) (fun _ _ h => h) hi), hsvc1⟩
+        exact absurd ⟨he, hsvc1⟩ hext
+
+
+theorem effMethods_nil (p : Program) (cfg : Cfg) (h : cfg.methods = []) : effMethods p cfg = [] := by
+  simp [effMethods, h]
+
+theorem crash_false_of_mono {a b : St} (m : a.crash = true → b.crash = true) (h : b.crash = false) : a.crash = false := by
+  cases ha : a.crash with
+  | false => rfl
+  | true => rw [m ha] at h; cases h
+
+theorem foldSvc_nofilter (p : Program) (cfg : Cfg) (hu : UniqueSvcFn p) (j f : Nat) : ∀ (l : List Service) (st : St),
+    (∀ svc ∈ l, svc ∈ (p.file f).services) →
+    (l.foldl (fun st svc => markService p cfg [] j f svc st) st).crash = false → SvcInv p st.marks [] →
+    SvcInv p (l.foldl (fun st svc => markService p cfg [] j f svc st) st).marks [] ∧
+      ∀ svc ∈ l, Node.svc f svc.name ∈ (l.foldl (fun st svc => markService p cfg [] j f svc st) st).marks := by
+  intro l
+  induction l with
+  | nil => intro st _ _ h; exact ⟨h, by simp⟩
+  | cons a l ih =>
+    intro st hall hc hi
+    simp only [List.foldl_cons] at hc ⊢
+    have e := foldSvc_ext p cfg [] j f l (markService p cfg [] j f a st)
+    obtain ⟨r1, r2⟩ := markService_nofilter p cfg hu j f a st [] (hall a (List.mem_cons_self))
+      (crash_false_of_mono e.2.2 hc) hi
+    obtain ⟨t1, t2⟩ := ih _ (fun x hx => hall x (List.mem_cons_of_mem _ hx)) hc r1
+    refine ⟨t1, ?_⟩
+    intro svc hsvc
+    rcases List.mem_cons.mp hsvc with hsvc | hsvc
+    · subst hsvc; exact e.1 r2
+    · exact t2 svc hsvc
+
+theorem stage1_targets (p : Program) (cfg : Cfg) : OnlyTargets (stage1 p cfg).marks :=
+  preProcess_targets p cfg _ 0 St.init (fun m hm => by simp [St.init] at hm)
+
+theorem nofilter_final (p : Program) (cfg : Cfg) (hm : cfg.methods = []) (hu : UniqueSvcFn p)
+    (hc : (markAST p cfg).crash = false) :
+    SvcInv p (markAST p cfg).marks [] ∧ ∀ svc ∈ (p.file 0).services, Node.svc 0 svc.name ∈ (markAST p cfg).marks := by
+  have hc2 : (stage2 p cfg).crash = false := by
+    rw [markAST_eq] at hc
+    exact crash_false_of_mono (markKeptPart_mono p cfg 0 _).2.2 hc
+  have h1 : SvcInv p (stage1 p cfg).marks [] := by
+    intro f svc _ hmark
+    have := stage1_targets p cfg _ hmark
+    simp [Node.isTarget] at this
+  unfold stage2 at hc2
+  rw [effMethods_nil p cfg hm] at hc2
+  obtain ⟨r1, r2⟩ := foldSvc_nofilter p cfg hu _ 0 (p.file 0).services (stage1 p cfg) (fun _ h => h) hc2 h1
+  have g := markKeptPart_grows p cfg 0 (stage2 p cfg)
+  rw [markAST_eq]
+  unfold stage2
+  rw [effMethods_nil p cfg hm]
+  unfold stage2 at g
+  rw [effMethods_nil p cfg hm] at g
+  refine ⟨?_, fun svc hsvc => g.sub (r2 svc hsvc)⟩
+  intro f svc hs hmark
+  rcases g.new _ hmark with hmark | hmark
+  · rcases r1 f svc hs hmark with h | h
+    · simp at h
+    · exact Or.inr (h.mono g.sub)
+  · have := allNodes_isTarget p hmark
+    simp [Node.isTarget] at this
+
+/-! ### the sweep -/
+
+theorem findSL_self (p : Program) (hu : UniqueSL p) {f : Nat} {k : SLKind} {s : StructLike} (hs : s ∈ (p.file f).sl k) :
+    findSL p f k s.name = some s := by
+  unfold findSL
+  cases h : ((p.file f).sl k).find? (fun x => x.name == s.name) with
+  | none =>
+    have := List.find?_eq_none.mp h s hs
+    simp at this
+  | some s0 =>
+    have h0 := List.mem_of_find?_eq_some h
+    have hn := List.find?_some h
+    simp only [beq_iff_eq] at hn
+    rw [nodup_map_inj (·.name) _ (hu f k) s0 h0 s hs hn]
+
+/-- a marked struct-like has every target of every field type marked -/
+theorem sl_fields_marked (p : Program) {M : Marks} (hc : Closed p M) (hu : UniqueSL p) {f : Nat} {k : SLKind} {s : StructLike}
+    (hs : s ∈ (p.file f).sl k) (hm : Node.sl f k s.name ∈ M) :
+    ∀ fd ∈ s.fields, ∀ x ∈ tyTargets p f fd.ty, x ∈ M := by
+  intro fd hfd x hx
+  apply hc _ hm
+  simp only [succs, findSL_self p hu hs, List.mem_flatMap]
+  exact ⟨fd, hfd, hx⟩
+
+theorem fn_types_marked (p : Program) (cfg : Cfg) (hu : UniqueSvcFn p) {f : Nat} {svc : Service} {fn : Function}
+    (hs : svc ∈ (p.file f).services) (hf : fn ∈ svc.fns) (hm : Node.fn f svc.name fn.name ∈ (markAST p cfg).marks) :
+    ∀ ty ∈ fn.types, ∀ x ∈ tyTargets p f ty, x ∈ (markAST p cfg).marks := by
+  obtain ⟨svc', hs', e1, fn', hf', e2, ht⟩ := (markAST_inv p cfg).fnj _ _ _ hm
+  have es := nodup_map_inj (·.name) _ (hu _).1 svc' hs' _ hs e1
+  subst es
+  have ef := nodup_map_inj (·.name) _ ((hu _).2 svc' hs) fn' hf' _ hf e2
+  subst ef
+  exact ht
+
+theorem mem_sweep_sl (p : Program) (cfg : Cfg) (ms : List Bytes) (st : St) (f : Nat) (k : SLKind) (s : StructLike) :
+    s ∈ (sweepFile p cfg ms st f (p.file f)).sl k ↔ s ∈ (p.file f).sl k ∧ keepSL cfg st.marks f k s = true := by
+  cases k <;> simp [sweepFile, File.sl, List.mem_filter]
+
+theorem kept_sl_marked (p : Program) (cfg : Cfg) (hc : (markAST p cfg).crash = false) {f : Nat} (hr : InclReach p f)
+    {k : SLKind} {s : StructLike} (hs : s ∈ (p.file f).sl k) (hk : keepSL cfg (markAST p cfg).marks f k s = true) :
+    Node.sl f k s.name ∈ (markAST p cfg).marks := by
+  unfold keepSL at hk
+  rcases Bool.or_eq_true_iff.mp hk with h | h
+  · exact List.contains_iff_mem.mp h
+  · exact (kept_of_inclReach p cfg hc hr).2.2 (k, s) ((mem_sls_iff _ (k, s)).mpr hs) h
+
+
+theorem mem_sweep_services (p : Program) (cfg : Cfg) (ms : List Bytes) (st : St) (f : Nat) (svc' : Service) :
+    svc' ∈ (sweepFile p cfg ms st f (p.file f)).services ↔
+      ∃ svc ∈ (p.file f).services, Node.svc f svc.name ∈ st.marks ∧ svc' = sweepSvc ms st f svc := by
+  simp only [sweepFile, List.mem_map, List.mem_filter, List.contains_iff_mem]
+  constructor
+  · rintro ⟨svc, ⟨h1, h2⟩, rfl⟩; exact ⟨svc, h1, h2, rfl⟩
+  · rintro ⟨svc, h1, h2, rfl⟩; exact ⟨svc, ⟨h1, h2⟩, rfl⟩
+
+theorem sweepSvc_fns (ms : List Bytes) (st : St) (f : Nat) (s : Service) :
+    (sweepSvc ms st f s).fns = (if ms.isEmpty then s.fns else s.fns.filter (fun fn => st.marks.contains (Node.fn f s.name fn.name))) ∧
+    (sweepSvc ms st f s).name = s.name := by
+  unfold sweepSvc
+  simp only
+  split <;> exact ⟨rfl, rfl⟩
+
+theorem kept_fn_marked (p : Program) (cfg : Cfg) (hc : (markAST p cfg).crash = false) (hu : UniqueSvcFn p)
+    {f : Nat} {svc : Service} (hs : svc ∈ (p.file f).services) (hm : Node.svc f svc.name ∈ (markAST p cfg).marks)
+    {fn : Function} (hf : fn ∈ (sweepSvc (effMethods p cfg) (markAST p cfg) f svc).fns) :
+    fn ∈ svc.fns ∧ Node.fn f svc.name fn.name ∈ (markAST p cfg).marks := by
+  rw [(sweepSvc_fns _ _ _ _).1] at hf
+  split at hf
+  · rename_i he
+    have hm0 : cfg.methods = [] := by
+      have : effMethods p cfg = [] := List.isEmpty_iff.mp he
+      simpa [effMethods] using this
+    rcases (nofilter_final p cfg hm0 hu hc).1 f svc hs hm with h | h
+    · simp at h
+    · exact ⟨hf, h.1 fn hf⟩
+  · obtain ⟨h1, h2⟩ := List.mem_filter.mp hf
+    exact ⟨h1, List.contains_iff_mem.mp h2⟩
+
+/-- everything that survives the sweep of an included file refers only to marked nodes -/
+theorem kept_refs (p : Program) (cfg : Cfg) (hc : (markAST p cfg).crash = false) (hu : UniqueSvcFn p) (hl : UniqueSL p)
+    (f : Nat) (hr : InclReach p f) :
+    (∀ c ∈ (sweepFile p cfg (effMethods p cfg) (markAST p cfg) f (p.file f)).consts, ∀ x ∈ tyTargets p f c.ty, x ∈ (markAST p cfg).marks) ∧
+    (∀ t ∈ (sweepFile p cfg (effMethods p cfg) (markAST p cfg) f (p.file f)).typedefs, ∀ x ∈ tyTargets p f t.ty, x ∈ (markAST p cfg).marks) ∧
+    (∀ k, ∀ s ∈ (sweepFile p cfg (effMethods p cfg) (markAST p cfg) f (p.file f)).sl k, ∀ fd ∈ s.fields,
+      ∀ x ∈ tyTargets p f fd.ty, x ∈ (markAST p cfg).marks) ∧
+    (∀ svc ∈ (sweepFile p cfg (effMethods p cfg) (markAST p cfg) f (p.file f)).services, ∀ fn ∈ svc.fns, ∀ ty ∈ fn.types,
+      ∀ x ∈ tyTargets p f ty, x ∈ (markAST p cfg).marks) := by
+  have hk := kept_of_inclReach p cfg hc hr
+  refine ⟨hk.1, hk.2.1, ?_, ?_⟩
+  · intro k s hs
+    obtain ⟨h1, h2⟩ := (mem_sweep_sl p cfg _ _ f k s).mp hs
+    exact sl_fields_marked p (markAST_inv p cfg).m.closed hl h1 (kept_sl_marked p cfg hc hr h1 h2)
+  · intro svc' hsvc' fn hfn
+    obtain ⟨svc, h1, h2, rfl⟩ := (mem_sweep_services p cfg _ _ f svc').mp hsvc'
+    obtain ⟨h3, h4⟩ := kept_fn_marked p cfg hc hu h1 h2 hfn
+    exact fn_types_marked p cfg hu h1 h3 h4
+
+/-- a marked include / struct-like survives the sweep; enums, typedefs and constants are never touched -/
+theorem marked_survives (p : Program) (cfg : Cfg) (ms : List Bytes) (st : St) (f : Nat) :
+    (∀ i inc, (p.file f).includes[i]? = some inc → Node.inc f i ∈ st.marks →
+      inc ∈ (sweepFile p cfg ms st f (p.file f)).includes) ∧
+    (∀ k s, s ∈ (p.file f).sl k → Node.sl f k s.name ∈ st.marks → s ∈ (sweepFile p cfg ms st f (p.file f)).sl k) ∧
+    (sweepFile p cfg ms st f (p.file f)).enums = (p.file f).enums ∧
+    (sweepFile p cfg ms st f (p.file f)).typedefs = (p.file f).typedefs ∧
+    (sweepFile p cfg ms st f (p.file f)).consts = (p.file f).consts := by
+  refine ⟨?_, ?_, rfl, rfl, rfl⟩
+  · intro i inc hi hm
+    simp only [sweepFile, List.mem_map, List.mem_filter]
+    refine ⟨(inc, i), ⟨List.mem_zipIdx_iff_getElem?.mpr hi, ?_⟩, rfl⟩
+    simp [keepInc, hm]
+  · intro k s hs hm
+    exact (mem_sweep_sl p cfg ms st f k s).mpr ⟨hs, by simp [keepSL, hm]⟩
+
+/-- sweep never alters the body of what it keeps -/
+theorem sweep_bodies (p : Program) (cfg : Cfg) (ms : List Bytes) (st : St) (f : Nat) :
+    (∀ k s, s ∈ (sweepFile p cfg ms st f (p.file f)).sl k → s ∈ (p.file f).sl k) ∧
+    (∀ svc' ∈ (sweepFile p cfg ms st f (p.file f)).services, ∃ svc ∈ (p.file f).services,
+      svc'.name = svc.name ∧ ∀ fn ∈ svc'.fns, fn ∈ svc.fns) := by
+  refine ⟨fun k s hs => ((mem_sweep_sl p cfg ms st f k s).mp hs).1, ?_⟩
+  intro svc' hsvc'
+  obtain ⟨svc, h1, _, rfl⟩ := (mem_sweep_services p cfg ms st f svc').mp hsvc'
+  refine ⟨svc, h1, (sweepSvc_fns _ _ _ _).2, ?_⟩
+  intro fn hfn
+  rw [(sweepSvc_fns _ _ _ _).1] at hfn
+  split at hfn
+  · exact hfn
+  · exact (List.mem_filter.mp hfn).1
+
+
+
+
+/-! ### with -m only matching methods are marked -/
+
+/-- every function mark belongs to a function whose name, prefixed with the name of some service
+("father"), is matched by one of the patterns -/
+def FnHit (cfg : Cfg) (ms : List Bytes) (M : Marks) : Prop :=
+  ∀ f s n, Node.fn f s n ∈ M → ∃ fa, hitLoose cfg ms (dot fa n) = true
+
+theorem markFunction_fnNew (p : Program) (f : Nat) (s : Bytes) (M : Marks) (fn : Function) (g : Nat) (s' n : Bytes)
+    (h : Node.fn g s' n ∈ markFunction p f s M fn) : Node.fn g s' n ∈ M ∨ n = fn.name := by
+  unfold markFunction at h
+  rcases (markTypes_grows p f fn.types _).new _ h with h | h
+  · rcases List.mem_cons.mp h with h | h
+    · injection h with _ _ h3
+      exact Or.inr h3
+    · exact Or.inl h
+  · have := allNodes_isTarget p h
+    simp [Node.isTarget] at this
+
+theorem hitStrict_loose (cfg : Cfg) (ms : List Bytes) (s : Bytes) (h : hitStrict cfg ms s = true) : hitLoose cfg ms s = true := by
+  unfold hitStrict at h
+  unfold hitLoose
+  obtain ⟨m, hm, hc⟩ := List.any_eq_true.mp h
+  exact List.any_eq_true.mpr ⟨m, hm, (Bool.and_eq_true_iff.mp hc).1⟩
+
+theorem FnHit.cons_other {cfg : Cfg} {ms : List Bytes} {M : Marks} (h : FnHit cfg ms M) (n : Node)
+    (hn : ∀ f s x, n ≠ Node.fn f s x) : FnHit cfg ms (n :: M) := by
+  intro f s x hx
+  rcases List.mem_cons.mp hx with hx | hx
+  · exact absurd hx.symm (hn f s x)
+  · exact h f s x hx
+
+theorem FnHit.insInc {cfg : Cfg} {ms : List Bytes} {M : Marks} (h : FnHit cfg ms M) (f i : Nat) : FnHit cfg ms (insInc f i M) := by
+  unfold Trim.insInc
+  split
+  · exact h
+  · exact h.cons_other _ (fun _ _ _ => by simp)
+
+theorem FnHit.grows {p : Program} {cfg : Cfg} {ms : List Bytes} {M R : Marks} (h : FnHit cfg ms M) (g : Grows p M R) : FnHit cfg ms R := by
+  intro f s n hn
+  rcases g.new _ hn with hn | hn
+  · exact h f s n hn
+  · have := allNodes_isTarget p hn
+    simp [Node.isTarget] at this
+
+theorem markSvcFn_hit (p : Program) (cfg : Cfg) (ms : List Bytes) (f : Nat) (svc : Service) (st : St) (fn : Function)
+    (fa : Bytes) (hfa : hitLoose cfg ms (dot fa fn.name) = true) (h : FnHit cfg ms st.marks) :
+    FnHit cfg ms (markSvcFn p f svc st fn).marks := by
+  intro g s n hn
+  rcases markFunction_fnNew p f svc.name _ fn g s n hn with hn | hn
+  · exact (h.cons_other _ (fun _ _ _ => by simp)) g s n hn
+  · rw [hn]; exact ⟨fa, hfa⟩
+
+theorem traceStep_hit (p : Program) (cfg : Cfg) (ms fathers : List Bytes) (f : Nat) (svc : Service) (st : St) (fn : Function)
+    (h : FnHit cfg ms st.marks) : FnHit cfg ms (traceStep p cfg ms fathers f svc st fn).marks := by
+  unfold traceStep
+  split
+  · rename_i hh
+    unfold hitFathers at hh
+    obtain ⟨fa, _, hfa⟩ := List.any_eq_true.mp hh
+    exact markSvcFn_hit p cfg ms f svc st fn fa hfa h
+  · exact h
+
+theorem svcStep_hit (p : Program) (cfg : Cfg) (ms : List Bytes) (hne : ms.isEmpty = false) (f : Nat) (svc : Service) (st : St) (fn : Function)
+    (h : FnHit cfg ms st.marks) : FnHit cfg ms (svcStep p cfg ms f svc st fn).marks := by
+  unfold svcStep
+  simp only [hne, Bool.false_eq_true, if_false]
+  split
+  · rename_i hh
+    exact markSvcFn_hit p cfg ms f svc st fn svc.name (hitStrict_loose cfg ms _ hh) h
+  · exact h
+
+theorem foldFns_hit {cfg : Cfg} {ms : List Bytes} {g : St → Function → St}
+    (hg : ∀ st fn, FnHit cfg ms st.marks → FnHit cfg ms (g st fn).marks) :
+    ∀ (fns : List Function) (st : St), FnHit cfg ms st.marks → FnHit cfg ms (fns.foldl g st).marks := by
+  intro fns
+  induction fns with
+  | nil => intro st h; exact h
+  | cons a l ih => intro st h; exact ih _ (hg st a h)
+
+theorem traceFinish_hit (cfg : Cfg) (ms : List Bytes) (f : Nat) (svc : Service) (s : St) (b : Bool)
+    (h : FnHit cfg ms s.marks) : FnHit cfg ms (traceFinish f svc (s, b)).1.marks := by
+  unfold traceFinish
+  simp only
+  split
+  · simp only
+    split
+    · exact (h.cons_other _ (fun _ _ _ => by simp)).insInc _ _
+    · exact h.cons_other _ (fun _ _ _ => by simp)
+  · exact h
+
+theorem trace_hit (p : Program) (cfg : Cfg) (ms : List Bytes) : ∀ (j : Nat) (fathers : List Bytes) (f : Nat) (svc : Service) (st : St),
+    FnHit cfg ms st.marks → FnHit cfg ms (trace p cfg ms j fathers f svc st).1.marks := by
+  intro j
+  induction j with
+  | zero => intro fathers f svc st h; exact h
+  | succ j ih =>
+    intro fathers f svc st h
+    have h1 := foldFns_hit (traceStep_hit p cfg ms fathers f svc) svc.fns st h
+    unfold trace
+    simp only
+    generalize svc.fns.foldl (traceStep p cfg ms fathers f svc) st = st1 at h1 ⊢
+    split
+    · split
+      · exact traceFinish_hit cfg ms f svc _ _ h1
+      · rename_i g b _
+        have i := ih (fathers ++ [b.name]) g b st1 h1
+        generalize trace p cfg ms j (fathers ++ [b.name]) g b st1 = r at i ⊢
+        split
+        · exact traceFinish_hit cfg ms f svc _ _ i
+        · exact traceFinish_hit cfg ms f svc _ _ i
+    · exact traceFinish_hit cfg ms f svc _ _ h1
+
+theorem markService_hit (p : Program) (cfg : Cfg) (ms : List Bytes) (hne : ms.isEmpty = false) : ∀ (j f : Nat) (svc : Service) (st : St),
+    FnHit cfg ms st.marks → FnHit cfg ms (markService p cfg ms j f svc st).marks := by
+  intro j
+  induction j with
+  | zero => intro f svc st h; exact h
+  | succ j ih =>
+    intro f svc st h
+    unfold markService
+    split
+    · exact h
+    · simp only [hne, Bool.false_eq_true, if_false, Bool.not_false, Bool.true_and]
+      have h1 := foldFns_hit (svcStep_hit p cfg ms hne f svc) svc.fns st h
+      generalize svc.fns.foldl (svcStep p cfg ms f svc) st = st1 at h1 ⊢
+      have h2 : FnHit cfg ms (if (decide (svc.ext ≠ []) || svc.ref.isSome) = true then
+          (trace p cfg ms (svcCount p + 1) [svc.name] f svc st1).1 else st1).marks := by
+        split
+        · exact trace_hit p cfg ms _ _ f svc st1 h1
+        · exact h1
+      generalize (if (decide (svc.ext ≠ []) || svc.ref.isSome) = true then
+          (trace p cfg ms (svcCount p + 1) [svc.name] f svc st1).1 else st1) = st2 at h2 ⊢
+      split
+      · split
+        · exact h2
+        · split
+          · exact h2
+          · split
+            · exact h2.insInc _ _
+            · exact ih _ _ _ (h2.insInc _ _)
+      · exact h2
+
+theorem method_filter_sound (p : Program) (cfg : Cfg) (hne : cfg.methods ≠ []) :
+    FnHit cfg (effMethods p cfg) (markAST p cfg).marks := by
+  have hne' : (effMethods p cfg).isEmpty = false := by
+    cases hm : cfg.methods with
+    | nil => exact absurd hm hne
+    | cons a l => simp [effMethods, hm]
+  have h1 : FnHit cfg (effMethods p cfg) (stage1 p cfg).marks := by
+    intro f s n hn
+    have := stage1_targets p cfg _ hn
+    simp [Node.isTarget] at this
+  have h2 : FnHit cfg (effMethods p cfg) (stage2 p cfg).marks := by
+    unfold stage2
+    generalize stage1 p cfg = st at h1
+    generalize (p.file 0).services = l
+    induction l generalizing st with
+    | nil => exact h1
+    | cons a l ih => exact ih _ (markService_hit p cfg _ hne' _ 0 a st h1)
+  rw [markAST_eq]
+  exact h2.grows (markKeptPart_grows p cfg 0 _)
+
+/-! ### machine-checked counterexamples -/
+
+def cfg0 : Cfg := ⟨[], false, false, [], fun _ _ => false⟩
+
+/-- `f0: include "f1.thrift"  service V0 extends f1.V2 {}` ; `f1: service V1 {}  service V2 extends V1 {}` -/
+def progA : Program := ⟨[
+  ⟨[102, 48], [⟨[102, 49], 1⟩], [], [], [], [], [], [], [⟨[86, 48], [102, 49, 46, 86, 50], some ([86, 50], 0), []⟩]⟩,
+  ⟨[102, 49], [], [], [], [], [], [], [], [⟨[86, 49], [], none, []⟩, ⟨[86, 50], [86, 49], none, []⟩]⟩]⟩
+
+/-- -m V1.put ; regexp2 finds "V1.put" in "V1.putAll" -/
+def cfgB : Cfg := ⟨[[86, 49, 46, 112, 117, 116]], false, false, [],
+  fun pat s => pat == [86, 49, 46, 112, 117, 116] && s == [86, 49, 46, 112, 117, 116, 65, 108, 108]⟩
+
+/-- `service V0 {}  service V1 extends V0 { void putAll() }` -/
+def progB : Program := ⟨[
+  ⟨[102, 48], [], [], [], [], [], [], [],
+    [⟨[86, 48], [], none, []⟩, ⟨[86, 49], [86, 48], none, [⟨[112, 117, 116, 65, 108, 108], [], [], none⟩]⟩]⟩]⟩
+
+theorem progA_facts :
+    (markAST progA cfg0).crash = false ∧
+    findSvc progA 1 [86, 49] ≠ none ∧
+    ((trimProg progA cfg0).file 1).services = [⟨[86, 50], [86, 49], none, []⟩] ∧
+    findSvc (trimProg progA cfg0) 1 [86, 49] = none := by decide
+
+theorem progB_facts :
+    (markAST progB cfgB).crash = false ∧
+    ((trimProg progB cfgB).file 0).services = [⟨[86, 49], [], none, [⟨[112, 117, 116, 65, 108, 108], [], [], none⟩]⟩] ∧
+    ((trimProg (trimProg progB cfgB) cfgB).file 0).services = [] := by decide
+
+
+
+
+/-! ### files with constants or typedefs stay reachable -/
+
+/-- the file declares a constant or a typedef (`ret = true` in markKeptPart) -/
+def hasCT (p : Program) (f : Nat) : Bool := !(p.file f).consts.isEmpty || !(p.file f).typedefs.isEmpty
+
+/-- a cached `markKeptPart` answer is `true` for files with constants or typedefs -/
+def CacheCT (p : Program) (st : St) : Prop := ∀ f r, (f, r) ∈ st.cache → hasCT p f = true → r = true
+
+theorem keptFold_snd (p : Program) (cfg : Cfg) (f : Nat) : ∀ (l : List (SLKind × StructLike)) (a : Marks × Bool),
+    a.2 = true → (l.foldl (keptStep p cfg f) a).2 = true := by
+  intro l
+  induction l with
+  | nil => intro a h; exact h
+  | cons ks l ih =>
+    intro a h
+    apply ih
+    unfold keptStep
+    split
+    · rfl
+    · exact h
+
+theorem markKeptPart_ct (p : Program) (cfg : Cfg) (f : Nat) (st : St) (h : CacheCT p st) :
+    CacheCT p (markKeptPart p cfg f st).1 ∧ (hasCT p f = true → (markKeptPart p cfg f st).2 = true) := by
+  unfold markKeptPart
+  split
+  · rename_i r hr
+    exact ⟨h, fun hct => h f r (cacheGet_mem _ _ _ hr) hct⟩
+  · simp only
+    have key : hasCT p f = true → (if cfg.force = true then
+        (markTypes p f (markTypes p f st.marks ((p.file f).consts.map (·.ty))) ((p.file f).typedefs.map (·.ty)),
+          !(p.file f).consts.isEmpty || !(p.file f).typedefs.isEmpty)
+        else (p.file f).sls.foldl (keptStep p cfg f)
+          (markTypes p f (markTypes p f st.marks ((p.file f).consts.map (·.ty))) ((p.file f).typedefs.map (·.ty)),
+          !(p.file f).consts.isEmpty || !(p.file f).typedefs.isEmpty)).2 = true := by
+      intro hct
+      split
+      · exact hct
+      · exact keptFold_snd p cfg f _ (_, _) hct
+    refine ⟨?_, key⟩
+    intro g r hgr hct
+    rcases List.mem_cons.mp hgr with hgr | hgr
+    · injection hgr with e1 e2
+      subst e1
+      rw [e2]
+      exact key hct
+    · exact h g r hgr hct
+
+/-- `g` can reach (through includes) a file with constants or typedefs -/
+def LeadsCT (p : Program) (g : Nat) : Prop := ∃ h, Path p g h ∧ hasCT p h = true
+
+theorem foldPre_snd {rec : Nat → St → St × Bool} (f : Nat) : ∀ (l : List (Include × Nat)) (a : St × Bool),
+    a.2 = true → (l.foldl (preStep rec f) a).2 = true := by
+  intro l
+  induction l with
+  | nil => intro a h; exact h
+  | cons x l ih =>
+    intro a h
+    apply ih
+    unfold preStep
+    simp only
+    split
+    · rfl
+    · exact h
+
+theorem preProcess_ct (p : Program) (cfg : Cfg) : ∀ (j f : Nat) (st : St), CacheCT p st →
+    CacheCT p (preProcess p cfg j f st).1 ∧
+    ((preProcess p cfg j f st).1.crash = false →
+      (LeadsCT p f → (preProcess p cfg j f st).2 = true) ∧
+      (∀ g, Path p f g → ∀ ii ∈ (p.file g).includes.zipIdx, LeadsCT p ii.1.target →
+        Node.inc g ii.2 ∈ (preProcess p cfg j f st).1.marks)) := by
+  intro j
+  induction j with
+  | zero =>
+    intro f st h
+    exact ⟨h, fun hc => by simp [preProcess] at hc⟩
+  | succ j ih =>
+    intro f st h
+    unfold preProcess
+    obtain ⟨k1, k2⟩ := markKeptPart_ct p cfg f st h
+    have hrec := preProcess_mono p cfg j
+    -- the include loop
+    have key : ∀ (l : List (Include × Nat)) (a : St × Bool), CacheCT p a.1 →
+        CacheCT p (l.foldl (preStep (preProcess p cfg j) f) a).1 ∧
+        ((l.foldl (preStep (preProcess p cfg j) f) a).1.crash = false →
+          (∀ ii ∈ l, LeadsCT p ii.1.target →
+            (l.foldl (preStep (preProcess p cfg j) f) a).2 = true ∧
+            Node.inc f ii.2 ∈ (l.foldl (preStep (preProcess p cfg j) f) a).1.marks) ∧
+          (∀ ii ∈ l, ∀ g, Path p ii.1.target g → ∀ jj ∈ (p.file g).includes.zipIdx, LeadsCT p jj.1.target →
+            Node.inc g jj.2 ∈ (l.foldl (preStep (preProcess p cfg j) f) a).1.marks)) := by
+      intro l
+      induction l with
+      | nil => intro a ha; exact ⟨ha, fun _ => ⟨by simp, by simp⟩⟩
+      | cons x l ihl =>
+        intro a ha
+        simp only [List.foldl_cons]
+        obtain ⟨r1, r2⟩ := ih x.1.target a.1 ha
+        have hstep_ct : CacheCT p (preStep (preProcess p cfg j) f a x).1 := by
+          unfold preStep
+          simp only
+          split
+          · exact r1
+          · exact r1
+        obtain ⟨t1, t2⟩ := ihl (preStep (preProcess p cfg j) f a x) hstep_ct
+        refine ⟨t1, fun hc => ?_⟩
+        have m2 := foldPre_mono hrec f l (preStep (preProcess p cfg j) f a x)
+        have hc1 : (preProcess p cfg j x.1.target a.1).1.crash = false := by
+          cases hcr : (preProcess p cfg j x.1.target a.1).1.crash with
+          | false => rfl
+          | true =>
+            have : (preStep (preProcess p cfg j) f a x).1.crash = true := by
+              unfold preStep
+              simp only
+              split <;> exact hcr
+            rw [m2.2.2 this] at hc
+            cases hc
+        obtain ⟨u1, u2⟩ := r2 hc1
+        obtain ⟨v1, v2⟩ := t2 hc
+        refine ⟨?_, ?_⟩
+        · intro ii hii hl
+          rcases List.mem_cons.mp hii with hii | hii
+          · subst hii
+            have hret := u1 hl
+            have hs : (preStep (preProcess p cfg j) f a ii).2 = true ∧
+                Node.inc f ii.2 ∈ (preStep (preProcess p cfg j) f a ii).1.marks := by
+              unfold preStep
+              simp [hret]
+            exact ⟨foldPre_snd f l _ hs.1, m2.1 hs.2⟩
+          · exact v1 ii hii hl
+        · intro ii hii g hg jj hjj hl
+          rcases List.mem_cons.mp hii with hii | hii
+          · subst hii
+            have := u2 g hg jj hjj hl
+            apply m2.1
+            unfold preStep
+            simp only
+            split
+            · exact List.mem_cons_of_mem _ this
+            · exact this
+          · exact v2 ii hii g hg jj hjj hl
+    obtain ⟨c1, c2⟩ := key (p.file f).includes.zipIdx (markKeptPart p cfg f st) k1
+    refine ⟨c1, fun hc => ?_⟩
+    obtain ⟨d1, d2⟩ := c2 hc
+    refine ⟨?_, ?_⟩
+    · rintro ⟨h', hp, hct⟩
+      cases hp with
+      | refl => exact foldPre_snd f _ _ (k2 hct)
+      | @step _ i g1 _ hi hp' =>
+        have hlt := incTarget_lt p hi
+        have hmem : ((p.file f).includes[i], i) ∈ (p.file f).includes.zipIdx := by
+          apply List.mem_zipIdx_iff_getElem?.mpr
+          simp [List.getElem?_eq_getElem hlt]
+        have ht : ((p.file f).includes[i]).target = g1 := by
+          simp [Program.incTarget, List.getElem?_eq_getElem hlt] at hi
+          exact hi
+        exact (d1 _ hmem ⟨h', by simpa [ht] using hp', hct⟩).1
+    · intro g hg jj hjj hl
+      cases hg with
+      | refl => exact (d1 jj hjj hl).2
+      | @step _ i g1 _ hi hp' =>
+        have hlt := incTarget_lt p hi
+        have hmem : ((p.file f).includes[i], i) ∈ (p.file f).includes.zipIdx := by
+          apply List.mem_zipIdx_iff_getElem?.mpr
+          simp [List.getElem?_eq_getElem hlt]
+        have ht : ((p.file f).includes[i]).target = g1 := by
+          simp [Program.incTarget, List.getElem?_eq_getElem hlt] at hi
+          exact hi
+        exact d2 _ hmem g (by simpa [ht] using hp') jj hjj hl
+
+/-- files still reachable from the root through the includes `traversal` keeps -/
+inductive KeptReach (p : Program) (M : Marks) : Nat → Prop
+  | root : KeptReach p M 0
+  | step {f : Nat} {ii : Include × Nat} : KeptReach p M f → ii ∈ (p.file f).includes.zipIdx →
+      keepInc p M f ii = true → KeptReach p M ii.1.target
+
+theorem ct_kept_reach (p : Program) (cfg : Cfg) (hc : (markAST p cfg).crash = false) {f : Nat}
+    (hr : InclReach p f) (hct : hasCT p f = true) : KeptReach p (markAST p cfg).marks f := by
+  have m := stage1_mono_final p cfg
+  have hc1 : (stage1 p cfg).crash = false := crash_false_of_mono m.2.2 hc
+  have hmarks := ((preProcess_ct p cfg _ 0 St.init (fun _ _ h => by simp [St.init] at h)).2 hc1).2
+  -- every edge on a path from the root towards a file with constants/typedefs is marked
+  have key : ∀ {g c : Nat}, Path p g c → hasCT p c = true → Path p 0 g →
+      KeptReach p (markAST p cfg).marks g → KeptReach p (markAST p cfg).marks c := by
+    intro g c hgc
+    induction hgc with
+    | refl => intro _ _ h; exact h
+    | @step a i b c hi hbc ih =>
+      intro hct' h0 hk
+      have hlt := incTarget_lt p hi
+      have hmem : ((p.file a).includes[i], i) ∈ (p.file a).includes.zipIdx := by
+        apply List.mem_zipIdx_iff_getElem?.mpr
+        simp [List.getElem?_eq_getElem hlt]
+      have ht : ((p.file a).includes[i]).target = b := by
+        simp [Program.incTarget, List.getElem?_eq_getElem hlt] at hi
+        exact hi
+      have hmk : Node.inc a i ∈ (markAST p cfg).marks :=
+        m.1 (hmarks a h0 _ hmem ⟨c, by simpa [ht] using hbc, hct'⟩)
+      have := KeptReach.step hk hmem (by simp [keepInc, hmk])
+      rw [ht] at this
+      exact ih hct' (h0.snoc hi) this
+  exact key (path_of_inclReach hr) hct (Path.refl 0) KeptReach.root
+
+
 end Trim
